@@ -235,7 +235,7 @@ func runC20(e *core.Env, n int) {
 			sc.Receiver = []Op{{Op: "recv"}}
 			sc.RecvAfterSend = true
 			sc.Handler = []Op{{Op: "recvall"}}
-			for j := 0; j < 5; j++ {
+			for j := 0; j < 12; j++ {
 				sc.Handler = append(sc.Handler, Op{Op: "send", Msg: genMsg(r, fmt.Sprintf("%s/resp%d", tag, j), false)})
 			}
 		}
@@ -263,6 +263,20 @@ func runC20(e *core.Env, n int) {
 		}
 		run.Cancel()
 		inp.Svc.Forget(run)
+		if variant == "peer-gave-up" {
+			// the client took one response, looked at a second one and gave up; one more may sit in the buffer and one
+			// may race with the client's cancellation: a handler whose sends go on succeeding is running ahead of a
+			// receiver that is gone
+			accepted := 0
+			for _, ev := range run.Rets("h", "send") {
+				if ev.Err == nil && ev.Pan == "" {
+					accepted++
+				}
+			}
+			if accepted > 4 {
+				e.Violate("backpressure/peer-gave-up/sender-ran-ahead", fmt.Sprintf("%d of 12 sends of the handler succeeded although the client had stopped receiving after the second response", accepted), w)
+			}
+		}
 		if variant == "independent-directions" {
 			arrived := 0
 			for _, ev := range run.Rets("h", "recv") {
